@@ -145,6 +145,7 @@ Proof.
       replace (da <? 1) with false by lia.
       f_equal. unfold secs_of_ymd, ord_of_ymd, date_of, jan1.
       rewrite (dbm_nl y mo Hm).
+      replace (n + 1 <? 366) with true by lia. rewrite andb_true_r.
       destruct (Z.ltb_spec 59 (n + 1)); destruct (Z.ltb_spec 2 mo); try lia;
         cbn [andb negb Z.eqb]; destruct (is_leap y); cbn [andb]; unfold DAY in *; lia.
   - (* Mm.w.d *)
